@@ -436,6 +436,7 @@ def run(rep, ctx):
           r"mp::ConstraintPropagatorsDown::.*", r"mp::Context::.*", r"mp::ProblemFlattener::Convert"]
     d = export(U, fn=fn, enum=[r"mp::Context::CtxVal"], repo=repo)
     F = Facts([d])
+    F_K1[0] = F
     rep.note_units([U])
     funcs = [f for f in F.funcs if not f.is_dependent() and f.cfg is not None]
     rep.note_funcs(funcs)
@@ -881,6 +882,9 @@ def local_inits(f):
     return {v["declId"]: kids(v)[0] for v in f.walk() if v["k"] == "VarDecl" and kids(v) and v.get("declId")}
 
 
+F_K1 = [None]
+
+
 def rule_K1(rep, funcs):
     k1 = rep.rule("C01.K1", "TABLE", "conditional comparisons: output sense, epsilon and indicator value per input comparison and direction; equality: indicator / disjunction of strict sides", floor=30)
     cvt = [f for f in funcs if f.qn.startswith("mp::Cond_LE_LT_GT_GE_Converter_MIP::")]
@@ -907,14 +911,22 @@ def rule_K1(rep, funcs):
             val = cv(a[1])
             inits = local_inits(f)
             e = strip(a[2])
+            reassigned = {strip(kids(n_)[0]).get("declId") for n_ in f.walk()
+                          if n_["k"] in ("BinaryOperator", "CompoundAssignOperator") and n_.get("op", "").endswith("=") and n_.get("op") not in ("==", "!=", "<=", ">=")}
+            unknown_ = False
             while e["k"] == "DeclRefExpr" and e.get("declId") in inits:
+                if e.get("declId") in reassigned:
+                    unknown_ = True           # the initialiser is not the value that reaches the call
+                    break
                 e = strip(inits[e["declId"]])
             while e["k"] in ("ExprWithCleanups", "ParenExpr"):
                 e = strip(kids(e)[0])
             # fold the compile-time conditional
             while e["k"] == "ConditionalOperator" and cv(kids(e)[0]) is not None:
                 e = strip(kids(e)[1] if cv(kids(e)[0]) else kids(e)[2])
-            if cv(e) is not None:
+            if unknown_:
+                eps_sign = None
+            elif cv(e) is not None:
                 eps = float(cv(e))
                 eps_sign = 0 if eps == 0 else None
             else:
@@ -923,6 +935,33 @@ def rule_K1(rep, funcs):
                 eps_sign = None
                 if len(atoms) == 1 and "ComparisonEps(" in atoms[0] and not af.get(""):
                     eps_sign = 1 if af[atoms[0]] == 1.0 else (-1 if af[atoms[0]] == -1.0 else None)
+            if eps_sign is None:
+                # the tolerance reaches the call through assignments / helpers: evaluate the function with ComparisonEps(..) = E
+                E_ = 1000.0
+                rec_ = []
+                box_ = {}
+
+                def atom_(t_, n_, env_):
+                    if n_["k"] in ("CXXMemberCallExpr", "CallExpr"):
+                        nm_ = (n_.get("callee") or "").split("::")[-1]
+                        if nm_ == "ConvertCondIneq":
+                            rec_.append(box_["mi"].expr(call_args(n_)[2], env_, 0))
+                            return 0
+                        if nm_ == "ComparisonEps":
+                            return E_
+                        if "ComparisonEps" in nm_ and getattr(F_K1[0], "_by_id", {}).get(n_.get("calleeId")) is None:
+                            return E_
+                    return None
+                from ..cfg import MiniInt as _MI
+                mi_ = _MI(F_K1[0], atom_)
+                box_["mi"] = mi_
+                try:
+                    mi_.call(f, [("obj", None, None), 0])
+                except AnalysisBroken as e_:
+                    if "without a return" not in str(e_):
+                        rec_ = []
+                if len(rec_) == 1 and rec_[0] in (0.0, E_, -E_):
+                    eps_sign = 0 if rec_[0] == 0 else (1 if rec_[0] > 0 else -1)
             strict = abs(kin) == 2
             w_ko = sgn if pos else -sgn
             w_val = 1 if pos else 0
